@@ -639,7 +639,15 @@ def op_config(scn):
 def second_graph(c, scn, G):
     if scn.get("edges2") is None:
         return G
-    return CFGraph(set(c.names), c.edges(scn["edges2"]))
+    # an equal copy built separately: the vertex names go in in another order than for the first
+    # graph (set iteration order depends on insertion history when hashes collide)
+    order = list(reversed(c.names))
+    k = (len(scn["edges2"]) + sum(len(nm) for nm in c.names)) % max(1, len(order))
+    order = order[k:] + order[:k]
+    vs = set()
+    for nm in order:
+        vs.add(nm)
+    return CFGraph(vs, c.edges(scn["edges2"]))
 
 
 @op("lin_equiv")
@@ -844,6 +852,23 @@ def op_greedy(scn):
         out["certificate"] = None
         if script is not None:
             out["script"] = "NOT-NONE"
+    # the same solver asked again: a fresh budget from where the first call stopped; a script it
+    # returns is still a certificate for the ORIGINAL divisor
+    ok2, res2 = call(alg.play)
+    if not ok2:
+        out["again"] = "ERR"
+    else:
+        s2, script2 = res2
+        ag = {"success": s2, "script": None, "final": None, "certificate": None}
+        if s2:
+            sc2 = script2.script
+            ag["script"] = [sc2[nm] for nm in c.names]
+            ag["final"] = c.degs(alg.divisor)
+            applied2 = CFLaplacian(G).apply(c.divisor(G, scn["deg"]), script2)
+            ag["certificate"] = (c.degs(applied2) == ag["final"]) and all(x >= 0 for x in ag["final"])
+        elif script2 is not None:
+            ag["script"] = "NOT-NONE"
+        out["again"] = ag
     # the solver works on its own copy: stepping it by hand afterwards must not reach the caller's divisor
     if c.n:
         call(alg.borrowing_move, c.names[0])
